@@ -23,7 +23,7 @@ def model_check(ctx):
     # 1. key encoding: constant-level obligations over all tuples (ASSUMEs) + the key-builder machine
     r = ctx.model_check("data", "MC_ContainerKeys", "MC_ContainerKeys.cfg",
                         constants={"TupleIds": ctx.pick(ALPHA_Q, ALPHA_T), "MaxParts": ctx.pick(3, 3),
-                                   "PartIds": ctx.pick('{"e", "z", "a", "m80", "az", "L56"}',
+                                   "PartIds": ctx.pick('{"e", "z", "a", "m80", "L56"}',
                                                        '{"e", "z", "a", "m80", "az", "x81", "L55", "L56"}')},
                         coverage=True, timeout=ctx.pick(400, 2400))
     ctx.check_coverage(r, ["New", "AppendTo", "Probe"])
@@ -56,7 +56,7 @@ def replay(ctx):
                              constants={"PartIds": WALK_IDS, "RawIds": '{"a", "e", "adr", "m80"}', "MaxBuilders": ctx.pick(4, 5),
                                         "MaxNew": 3, "MaxArgs": 2, "MaxParts": 4, "MaxOps": wl, "Depth": wl,
                                         "ProbeIds": PROBES},
-                             simulate="num=%d" % ctx.pick(40, 300), depth=wl + 1, seed=ctx.seed, timeout=1500)
+                             simulate="num=%d" % ctx.pick(300, 2000), depth=wl + 1, seed=ctx.seed, timeout=1500)
         # 4. container behaviours: all of depth 2 + random walks per key-builder kind
         cb = []
         for i, (bt, raw) in enumerate(KINDS):
